@@ -563,7 +563,8 @@ def model_residual(p, obs):
     """build_ellipse_model against the image on the pixels well inside the fitted region: elliptical radius
     between max(5 pixels, smallest fitted sma + 1) and 0.8 x min(largest fitted sma, 3 scale radii, distance
     of the centre to the nearest frame edge - 1) (build_ellipse_model abandons an ellipse at its first sample
-    outside the frame, so only ellipses that lie inside the frame count), profile resolved by the pixel grid.
+    outside the frame, so only ellipses that lie inside the frame count), profile resolved by the pixel grid,
+    out of reach of every non-converged isophote of the list.
     Returns (relative residuals on the filled pixels of the region, filled fraction of the region) or None
     when the region has fewer than 50 pixels."""
     from photutils.isophote import build_ellipse_model
@@ -585,6 +586,36 @@ def model_residual(p, obs):
     rr = np.maximum(r, 1.0)
     slope = np.abs(np.log(f(rr * 1.01)) - np.log(f(rr))) / (0.01 * rr) / (1.0 - p['eps'])
     region &= slope <= 0.5
+    # ... and only pixels that no ellipse drawn from a NON-CONVERGED isophote can touch.  The fitter itself flags
+    # those (stop code 2: iteration limit, geometry = best so far; 5/4/1: geometry copied / not fitted / too few
+    # points); their geometry need not describe the image, so no model of the list can reproduce it there.  The
+    # model between consecutive fitted sma is a cubic spline through the list, so a non-converged isophote j
+    # influences the ellipses with sma in [sma_(j-2), sma_(j+2)], drawn with geometries between the true one and
+    # that of j.  In terms of the TRUE elliptical radius r these ellipses cover the band from the smallest r on
+    # the ellipse (geometry_j, sma_(j-2)) to the largest r on the ellipse (geometry_j, sma_(j+2)), joined with
+    # [sma_(j-2), sma_(j+2)] itself; pixels with r in such a band are left out.  Nothing is left out of a fit whose
+    # isophotes all converged; that the fitter DOES converge inside the basin is the business of the
+    # convergence-rate and recovery tests, not of this one.
+    il = list(obs['isolist'])
+    n = len(il)
+    cpa, spa = math.cos(p['pa']), math.sin(p['pa'])
+    phi = np.linspace(0.0, 2 * math.pi, 180, endpoint=False)
+    unsupported = np.zeros(r.shape, bool)
+    for j, iso in enumerate(il):
+        if iso.stop_code == 0 or iso.sma <= 0:
+            continue
+        lo_sma, hi_sma = il[max(0, j - 2)].sma, il[min(n - 1, j + 2)].sma
+        band_lo, band_hi = lo_sma, hi_sma
+        for a_ in (lo_sma, hi_sma):
+            ex = a_ * np.cos(phi)
+            ey = a_ * (1.0 - iso.eps) * np.sin(phi)
+            px = iso.x0 + ex * math.cos(iso.pa) - ey * math.sin(iso.pa) - p['x0']
+            py = iso.y0 + ex * math.sin(iso.pa) + ey * math.cos(iso.pa) - p['y0']
+            tr = np.sqrt((px * cpa + py * spa) ** 2 + ((-px * spa + py * cpa) / (1 - p['eps'])) ** 2)
+            band_lo, band_hi = min(band_lo, float(tr.min())), max(band_hi, float(tr.max()))
+        unsupported |= (r >= band_lo - 1.0) & (r <= band_hi + 1.0)      # one pixel of bilinear spreading
+    model_residual.last_unsupported = int((region & unsupported).sum())
+    region &= ~unsupported
     if region.sum() < 50:
         return None
     inside = region & (model != 0)
@@ -829,7 +860,8 @@ def run(ctx):
         'non-nearest-neighbour fits end with stop code 0 (observed ~ 90-99 %); an empty result counts as 8 failures',
         'build_ellipse_model reproduces the image inside the fitted region: spline numerics, tested only '
         '(support:model_image; frames of aspect 1:3 to 3:1 with the galaxy centred beyond the shorter dimension; '
-        'the region of ellipses inside the frame must be filled to >= 99 %, median relative residual <= 3 %, 90th '
+        'pixels within reach of an isophote the fitter reports as not converged (stop code != 0) are left out - the '
+        'list does not describe the image there -; the remaining region of ellipses inside the frame must be filled to >= 99 %, median relative residual <= 3 %, 90th '
         'percentile <= 7 %)',
         'fixed parameters: proved of the fitter model for the whole iteration (fixed_params_kept; fixed eps for a '
         'start eps > 0); fix_geometry / non-iterative paths are tested only: on real fits every fix_* request (at '
@@ -1045,10 +1077,13 @@ def run(ctx):
         except Exception as e:                       # spline failures are numerics
             ctx.stat('model_image', 'raised:' + type(e).__name__)
             continue
+        ctx.stat('model_image', 'pixels-within-reach-of-a-non-converged-isophote(left out)',
+                 getattr(model_residual, 'last_unsupported', 0))
         if res is None:
             ctx.stat('model_image', 'region-too-small')
             continue
         rel, coverage = res
+        ctx.stat('model_image', 'pixels-compared', int(rel.size))
         ctx.stat('model_image', 'centre-beyond-shorter-dimension' if beyond(p) else 'centre-within-shorter-dimension')
         if seam(p):
             ctx.stat('model_image', 'pa-on-the-0/pi-seam')
